@@ -103,12 +103,16 @@ def controlled_run(P, cfg, choices, strategy):
     S.Pool.notify_done = notify_done
     shared = {"pool": None, "pool_ready": sc.Event(), "submitted": sc.Event()}
 
+    raisers = set(cfg.get("raisers", ()))
+
     def make_job(j):
         def job():
             mon.job_started(j)
             x = 0
             x += 1
             x += 1
+            if j in raisers:
+                raise RuntimeError("job %d ends with an exception" % j)     # a job may end by raising: its worker is free again all the same
             return x
         return job
     jobs = [make_job(j) for j in range(njobs)]
@@ -346,6 +350,15 @@ def plan(tier, seed):
             for jobs in ((2, 3) if tier == "quick" else (2, 3, 4, 5)):
                 for closer in ("none", "same", "other"):
                     cfgs.append({"size": size, "min": mn, "jobs": jobs, "closer": closer})
+    # jobs that end with an exception (first, last, all)
+    for size in (1, 2, 3):
+        for mn in range(1, size + 1):
+            for closer in ("none", "same") if tier == "quick" else ("none", "same", "other"):
+                for jobs in ((3,) if tier == "quick" else (3, 4)):
+                    for raisers in ((0,), (jobs - 1,), tuple(range(jobs))):
+                        if tier == "quick" and (size + mn + len(raisers) + (closer == "same")) % 2:
+                            continue
+                        cfgs.append({"size": size, "min": mn, "jobs": jobs, "closer": closer, "raisers": raisers})
     if tier == "quick":
         # grow - retire - grow again needs four jobs: a few such configurations also in the quick tier
         for size, mn in ((2, 1), (3, 1), (3, 2)):
